@@ -271,6 +271,14 @@ package collection
 //@   prop C17
 //@   requires k.elements != nil && elem != nil
 //@   ensures [unlinked] calls(k.evicts.Remove, elem) == 1 && calls(onEvict) == 1 && !has(k.elements, unbox(old(elem.Value), string)) && unbox(arg(onEvict, 0), string) == unbox(old(elem.Value), string)
+// remove (explicit delete): a known key goes through the same unlinking as an eviction - list, index and the
+// eviction callback; an unknown key is a no-op.
+//@ func (keyLru).remove
+//@   prop C17
+//@   opaque removeElement
+//@   requires k.elements != nil
+//@   ensures [known-unlinked] old(has(k.elements, key)) ==> calls(k.removeElement, old(k.elements[key])) == 1 && calls(Remove) == 0
+//@   ensures [unknown-noop] !old(has(k.elements, key)) ==> calls(removeElement) == 0 && calls(Remove) == 0
 //@ func (*Cache).onEvict
 //@   prop C17
 //@   opaque RemoveTimer
@@ -313,6 +321,9 @@ package collection
 //@   ensures [visits-the-live-buckets] now >= rw.lastTime && visible > 0 ==> calls(rw.win.reduce) == 1 && arg(reduce, 1) == (rw.offset + sp + 1) % rw.size && arg(reduce, 2) == visible && arg(reduce, 3) == fn
 //@   ensures [nothing-visible] now >= rw.lastTime && visible <= 0 ==> calls(reduce) == 0
 //@   ensures [read-only] rw.offset == old(rw.offset) && rw.lastTime == old(rw.lastTime)
+// the buckets are handed to fn while the window's lock is held, so a concurrent Add cannot expire or change them
+// between the choice of the live range and the visit
+//@   ensures [visits-under-lock] calls(on("lock", rw.lock)) == 1 && calls(on("unlock", rw.lock)) == 1 && before(on("lock", rw.lock), reduce) && before(reduce, on("unlock", rw.lock))
 //@   modifies nothing
 
 // The bucket visited at step i of Reduce is the one of age size-1-i (age 0 = current interval) in the ring.
